@@ -62,6 +62,26 @@ Proof. unfold posts. apply fold_left_app. Qed.
 End Acceptor.
 Arguments accepts {S}. Arguments posts {S}.
 
+(* an acceptor that is a projection of another one accepts whatever the other accepts *)
+Lemma accepts_sim {S1 S2 : Type} (pre1 : S1 -> hitem -> Prop) (post1 : S1 -> hitem -> S1)
+      (pre2 : S2 -> hitem -> Prop) (post2 : S2 -> hitem -> S2) (proj : S1 -> S2) :
+  (forall m x, pre1 m x -> pre2 (proj m) x /\ proj (post1 m x) = post2 (proj m) x) ->
+  forall h m, accepts pre1 post1 m h -> accepts pre2 post2 (proj m) h /\ proj (posts post1 m h) = posts post2 (proj m) h.
+Proof.
+  intros Hsim. induction h as [|x h IH]; intros m Hacc; cbn in *.
+  - split; [exact I|reflexivity].
+  - destruct Hacc as [Hp Hrest]. destruct (Hsim m x Hp) as [Hp2 Heq].
+    destruct (IH _ Hrest) as [Ha2 Hpost]. rewrite Heq in Ha2, Hpost. split; [split; assumption|exact Hpost].
+Qed.
+
+(* every item of an accepted history satisfied its precondition in some monitor state *)
+Lemma accepts_in {S : Type} (pre : S -> hitem -> Prop) (post : S -> hitem -> S) :
+  forall h m x, accepts pre post m h -> In x h -> exists m', pre m' x.
+Proof.
+  induction h as [|y h IH]; intros m x Hacc Hin; [contradiction|]. cbn in Hacc. destruct Hacc as [Hp Hrest].
+  destruct Hin as [<-|Hin]; [exists m; exact Hp|exact (IH _ _ Hrest Hin)].
+Qed.
+
 (* ------------------------------------------------------------------------------------------ *)
 (* The C15 monitor                                                                             *)
 
@@ -203,6 +223,162 @@ Definition inv_st (n : nat) (f : fdl) (m : cst) : Prop :=
    request, and how many applications have declined in this visit. *)
 Definition Inv (n : nat) (f : fdl) (m : cst) : Prop :=
   c_kind m = kind_of (f_state f) /\ c_turn m = f_next_app f /\ inv_st n f m.
+
+(* ------------------------------------------------------------------------------------------ *)
+(* The statements of the named theorems: projections of the monitor                            *)
+
+(* C15_contract - what ONE application (index i) may rely on.  Its state: idle, or waiting for the reply
+   to the request it sent to da; k = state of the station when the current poll began. *)
+Inductive app_st : Set := AppIdle | AppWaiting (da : Z).
+
+Definition apre (tsa : Z) (i : nat) (s : app_st * state_kind) (x : hitem) : Prop :=
+  match x with
+  | HCall (CallTransmit j hp r) =>
+      (* whoever is asked: the token is held and application i is not waiting for a reply *)
+      fst s = AppIdle /\ in_visit (snd s) = true
+  | HCall (CallReceiveReply j a t) => j = i -> fst s = AppWaiting a /\ reply_ok tsa a t
+  | HCall (CallHandleTimeout j a) => j = i -> fst s = AppWaiting a
+  | HEnd now f =>
+      (* a request stays outstanding across polls only in AwaitDataResponse; it is dropped without a
+         callback only when the station loses the token *)
+      match fst s with
+      | AppWaiting _ => kind_of (f_state f) = KAwaitDataResponse \/ kind_of (f_state f) = KActiveIdle
+      | AppIdle => True
+      end
+  | HReset => True
+  end.
+
+Definition apost (i : nat) (s : app_st * state_kind) (x : hitem) : app_st * state_kind :=
+  match x with
+  | HCall (CallTransmit j hp r) =>
+      if Nat.eqb j i then (match r with Some (_, Some da) => AppWaiting da | _ => AppIdle end, snd s) else s
+  | HCall (CallReceiveReply j _ _) | HCall (CallHandleTimeout j _) => if Nat.eqb j i then (AppIdle, snd s) else s
+  | HEnd now f =>
+      (match fst s, kind_of (f_state f) with AppWaiting da, KAwaitDataResponse => AppWaiting da | _, _ => AppIdle end,
+       kind_of (f_state f))
+  | HReset => (AppIdle, KOffline)
+  end.
+
+Definition app_view (i : nat) (m : cst) : app_st * state_kind :=
+  (match c_out m with Some (j, da) => if Nat.eqb j i then AppWaiting da else AppIdle | None => AppIdle end, c_kind m).
+
+Lemma app_view_sim n tsa i m x :
+  cpre n tsa m x -> apre tsa i (app_view i m) x /\ app_view i (cpost n m x) = apost i (app_view i m) x.
+Proof.
+  unfold app_view. destruct x as [[j hp r|j a t|j a]|now f|]; cbn.
+  - intros [Hv [Ho [Hj [Hn Hd]]]]. rewrite Ho. split; [split; [reflexivity|exact Hv]|].
+    destruct r as [[wire [da|]]|]; cbn; rewrite ?Ho; destruct (Nat.eqb j i); reflexivity.
+  - intros [Hk [Ho [Hj Hr]]]. rewrite Ho. split.
+    + intros ->. rewrite Nat.eqb_refl. split; [reflexivity|exact Hr].
+    + destruct (Nat.eqb j i); reflexivity.
+  - intros [Hk [Ho Hj]]. rewrite Ho. split.
+    + intros ->. rewrite Nat.eqb_refl. reflexivity.
+    + destruct (Nat.eqb j i); reflexivity.
+  - intros [H1 [H2 _]]. destruct (c_out m) as [[j da]|] eqn:Eo.
+    + split.
+      * destruct (Nat.eqb j i); [apply H2; discriminate|exact I].
+      * destruct (kind_of (f_state f)); cbn; rewrite ?Eo; cbn; destruct (Nat.eqb j i); reflexivity.
+    + split; [exact I|]. destruct (kind_of (f_state f)); reflexivity.
+  - intros _. split; [exact I|reflexivity].
+Qed.
+
+(* C15_round_robin - the turn order.  r_turn = application whose turn it is, r_decl = number of
+   applications that have declined since the first decline of the visit (they are r_turn - r_decl, ...,
+   r_turn - 1 modulo n, each exactly once). *)
+Record rr_st : Set := mkRr { r_kind : state_kind; r_turn : nat; r_decl : nat }.
+
+Definition rpre (n : nat) (s : rr_st) (x : hitem) : Prop :=
+  match x with
+  | HCall (CallTransmit i hp r) => i = r_turn s /\ (i < n)%nat /\ (r_decl s < n)%nat
+  | HCall (CallReceiveReply i _ _) | HCall (CallHandleTimeout i _) => i = r_turn s
+  | HEnd now f =>
+      let k' := kind_of (f_state f) in
+      (in_visit (r_kind s) = true -> (0 < n)%nat -> r_decl s = n -> k' = KPassToken) /\
+      (in_visit (r_kind s) = true -> k' = KPassToken -> r_decl s = n \/ f_end_tht f <= now)
+  | HReset => True
+  end.
+
+Definition rpost (n : nat) (s : rr_st) (x : hitem) : rr_st :=
+  match x with
+  | HCall (CallTransmit i hp None) => mkRr (r_kind s) (Nat.modulo (i + 1) n) (S (r_decl s))
+  | HCall _ => s
+  | HEnd now f =>
+      let k' := kind_of (f_state f) in
+      mkRr k' (match k' with KOffline => 0%nat | _ => r_turn s end)
+           (if in_visit k' then (if in_visit (r_kind s) then r_decl s else 0%nat) else 0%nat)
+  | HReset => mkRr KOffline 0 0
+  end.
+
+Definition rr_view (m : cst) : rr_st := mkRr (c_kind m) (c_turn m) (c_decl m).
+
+Lemma rr_view_sim n tsa m x :
+  cpre n tsa m x -> rpre n (rr_view m) x /\ rr_view (cpost n m x) = rpost n (rr_view m) x.
+Proof.
+  unfold rr_view. destruct x as [[j hp r|j a t|j a]|now f|]; cbn.
+  - intros [Hv [Ho [Hj [Hn Hd]]]]. split; [tauto|]. destruct r as [[wire [da|]]|]; reflexivity.
+  - intros [Hk [Ho [Hj Hr]]]. split; [exact Hj|reflexivity].
+  - intros [Hk [Ho Hj]]. split; [exact Hj|reflexivity].
+  - intros [_ [_ [H3 H4]]]. split; [split; assumption|reflexivity].
+  - intros _. split; [exact I|reflexivity].
+Qed.
+
+(* C15_routing - in the station's call log every reply / time-out is immediately preceded by the
+   transmit call of the same application that sent a request expecting a reply from that address *)
+Definition answers (c : call) (i : nat) (a : Z) : Prop :=
+  (exists t, c = CallReceiveReply i a t) \/ c = CallHandleTimeout i a.
+
+Fixpoint routed (prev : option call) (l : list call) : Prop :=
+  match l with
+  | [] => True
+  | c :: l' =>
+      (forall i a, answers c i a -> exists hp wire, prev = Some (CallTransmit i hp (Some (wire, Some a)))) /\
+      routed (Some c) l'
+  end.
+
+Lemma last_cons {X} (l : list X) : forall x d, last (x :: l) d = last l x.
+Proof. induction l as [|y l IH]; intros x d; [reflexivity|]. change (last (x :: y :: l) d) with (last (y :: l) d). rewrite !IH. reflexivity. Qed.
+
+Lemma routed_spec : forall l prev, routed prev l ->
+  forall pre c post i a, l = pre ++ c :: post -> answers c i a ->
+  exists hp wire, last (map Some pre) prev = Some (CallTransmit i hp (Some (wire, Some a))).
+Proof.
+  induction l as [|x l IH]; intros prev Hr pre c post i a Heq Ha.
+  - destruct pre; discriminate Heq.
+  - cbn in Hr. destruct Hr as [Hx Hrest]. destruct pre as [|y pre].
+    + cbn in Heq. injection Heq as -> ->. cbn. exact (Hx i a Ha).
+    + cbn in Heq. injection Heq as -> Heq. specialize (IH _ Hrest pre c post i a Heq Ha).
+      destruct IH as [hp [wire IH]]. exists hp, wire. cbn [map]. rewrite last_cons. exact IH.
+Qed.
+
+Lemma accepted_routed n tsa : forall h m prev,
+  accepts (cpre n tsa) (cpost n) m h ->
+  (forall i a, c_out m = Some (i, a) -> exists hp wire, prev = Some (CallTransmit i hp (Some (wire, Some a)))) ->
+  routed prev (calls_of h).
+Proof.
+  induction h as [|x h IH]; intros m prev Hacc HJ; [exact I|].
+  cbn in Hacc. destruct Hacc as [Hp Hrest].
+  destruct x as [c|now f|]; cbn [calls_of flat_map app].
+  - change (flat_map _ h) with (calls_of h). cbn [routed]. split.
+    + intros i a [[t ->]| ->]; cbn in Hp; apply HJ; tauto.
+    + apply (IH _ _ Hrest). intros i a Ho.
+      destruct c as [j hp [[wire [da|]]|]|j a' t|j a']; cbn in Ho, Hp; try (destruct Hp as [_ [Hp _]]; congruence); try discriminate Ho.
+      injection Ho as <- <-. exists hp, wire. reflexivity.
+  - change (flat_map _ h) with (calls_of h). apply (IH _ _ Hrest). intros i a Ho. cbn in Ho.
+    destruct (kind_of (f_state f)); try discriminate Ho. exact (HJ _ _ Ho).
+  - change (flat_map _ h) with (calls_of h). apply (IH _ _ Hrest). intros i a Ho. discriminate Ho.
+Qed.
+
+(* C15_zero_apps, history part: without applications nobody is ever called *)
+Lemma accepted_zero_apps tsa : forall h m, accepts (cpre 0 tsa) (cpost 0) m h -> c_out m = None ->
+  calls_of h = [] /\ c_out (posts (cpost 0) m h) = None.
+Proof.
+  induction h as [|x h IH]; intros m Hacc Ho; [split; [reflexivity|exact Ho]|].
+  cbn in Hacc. destruct Hacc as [Hp Hrest].
+  destruct x as [c|now f|]; cbn [calls_of flat_map app posts fold_left]; change (flat_map _ h) with (calls_of h).
+  - exfalso. destruct c as [j hp r|j a t|j a]; cbn in Hp; [lia|destruct Hp as [_ [Hp _]]; congruence|destruct Hp as [_ [Hp _]]; congruence].
+  - apply (IH _ Hrest). cbn. rewrite Ho. destruct (kind_of (f_state f)); reflexivity.
+  - apply (IH _ Hrest). reflexivity.
+Qed.
 
 (* ------------------------------------------------------------------------------------------ *)
 
@@ -1403,6 +1579,225 @@ Proof.
     + apply Hquiet; [reflexivity|]. apply squiet_quiet. apply do_pass_token_squiet. exact Hd.
     + apply Hquiet; [reflexivity|]. apply squiet_quiet. apply do_check_token_pass_squiet. exact Hd.
     + apply Hquiet; [reflexivity|]. apply squiet_quiet. apply do_await_status_response_squiet. exact Hd.
+Qed.
+
+(* ------------------------------------------------------------------------------------------ *)
+(* Histories: arbitrary sequences of polls (any time, any PHY input), set_online / set_offline calls, and
+   arbitrary interference of the user with the application objects between polls.                *)
+
+Inductive event : Type :=
+| EvPoll (now : Z) (pin : phy_in)
+| EvOnline
+| EvOffline
+| EvUser (g : A -> A).
+
+Definition step (f : fdl) (apps : list A) (e : event) : res (fdl * list A * list hitem) :=
+  match e with
+  | EvPoll now pin =>
+      let* (f', _, apps', calls) := poll ops f now pin apps in
+      Ok (f', apps', map HCall calls ++ [HEnd now f'])
+  | EvOnline => let* f' := set_online f in Ok (f', apps, [])
+  | EvOffline => let* f' := set_offline f in Ok (f', apps, [HReset])
+  | EvUser g => Ok (f, map g apps, [])
+  end.
+
+Fixpoint run (f : fdl) (apps : list A) (evs : list event) : res (fdl * list A * list hitem) :=
+  match evs with
+  | [] => Ok (f, apps, [])
+  | e :: tl =>
+      let* (f1, apps1, h1) := step f apps e in
+      let* (f2, apps2, h2) := run f1 apps1 tl in
+      Ok (f2, apps2, h1 ++ h2)
+  end.
+
+Definition accepted (n : nat) (tsa : Z) (m : cst) (h : list hitem) : Prop := accepts (cpre n tsa) (cpost n) m h.
+Definition after (n : nat) (m : cst) (h : list hitem) : cst := posts (cpost n) m h.
+
+Lemma step_preserves f apps e f' apps' h m :
+  Inv (length apps) f m -> step f apps e = Ok (f', apps', h) ->
+  accepted (length apps) (ts f) m h /\ Inv (length apps) f' (after (length apps) m h) /\
+  length apps' = length apps /\ f_p f' = f_p f.
+Proof.
+  intros HI H. destruct e as [now pin| | |g]; cbn [step] in H.
+  - unfold poll, poll_traced in H.
+    destruct (poll_inner ops f now (tx_busy pin) (mkWorld (rx pin) None apps [] [])) as [[f1 w1]| |] eqn:E; cbn [bind] in H; try discriminate H.
+    injection H as <- <- <-.
+    eapply poll_inner_preserves in E; [|exact HI|reflexivity].
+    destruct E as [l [Hl [[Hacc Hinv] [Hlen Hp]]]]. cbn in Hl. subst l.
+    unfold accepted, after. tauto.
+  - unfold set_online, set_state in H. cbn [bind] in H. injection H as <- <- <-.
+    split; [exact I|]. split; [|split; reflexivity]. exact HI.
+  - unfold set_offline, set_state in H. destruct (fdl_new (f_p f)) as [f1| |] eqn:En; cbn [bind] in H; try discriminate H.
+    injection H as <- <- <-. apply fdl_new_spec in En. destruct En as [[Rs [_ [Rn _]]] Rp].
+    split; [split; exact I|]. split; [|split; [reflexivity|exact Rp]].
+    unfold Inv, inv_st, after. cbn. rewrite Rs, Rn. cbn. tauto.
+  - injection H as <- <- <-. split; [exact I|]. split; [exact HI|]. split; [apply map_length|reflexivity].
+Qed.
+
+(* The lift: the monitor accepts every history, from every state that satisfies the invariant. *)
+Theorem run_accepted : forall evs f apps m f' apps' h,
+  Inv (length apps) f m -> run f apps evs = Ok (f', apps', h) ->
+  accepted (length apps) (ts f) m h /\ Inv (length apps) f' (after (length apps) m h) /\
+  length apps' = length apps /\ f_p f' = f_p f.
+Proof.
+  induction evs as [|e tl IH]; intros f apps m f' apps' h HI H; cbn [run] in H.
+  - injection H as <- <- <-. split; [exact I|]. split; [exact HI|]. split; reflexivity.
+  - destruct (step f apps e) as [[[f1 apps1] h1]| |] eqn:Es; cbn [bind] in H; try discriminate H.
+    destruct (run f1 apps1 tl) as [[[f2 apps2] h2]| |] eqn:Er; cbn [bind] in H; try discriminate H.
+    injection H as <- <- <-.
+    apply (step_preserves _ _ _ _ _ _ m HI) in Es. destruct Es as [A1 [I1 [L1 P1]]].
+    rewrite <- L1 in I1. apply (IH _ _ _ _ _ _ I1) in Er. destruct Er as [A2 [I2 [L2 P2]]].
+    rewrite L1 in *. replace (ts f1) with (ts f) in A2 by (unfold ts; rewrite P1; reflexivity).
+    unfold accepted, after in *. split; [apply accepts_app; split; assumption|].
+    split; [rewrite posts_app; exact I2|]. split; congruence.
+Qed.
+
+(* Inv init: the station as FdlActiveStation::new creates it *)
+Lemma Inv_init n p f : fdl_new p = Ok f -> Inv n f cst_init.
+Proof.
+  intros H. apply fdl_new_spec in H. destruct H as [[Rs [_ [Rn _]]] _].
+  unfold Inv, inv_st. rewrite Rs, Rn. cbn. tauto.
+Qed.
+
+(* every state determines the monitor state that makes Inv true, if there is one: the theorems hold from
+   any such state, not only from the initial one *)
+Definition cst_of (f : fdl) (decl : nat) : cst :=
+  mkCst (kind_of (f_state f))
+        (match f_state f with AwaitDataResponse a _ _ => Some (f_next_app f, a) | _ => None end)
+        (f_next_app f) decl.
+
+(* ------------------------------------------------------------------------------------------ *)
+(* One poll, all states: where the callbacks of a poll come from                               *)
+
+Lemma poll_calls_cases f now pin (apps : list A) f' o apps' calls :
+  poll ops f now pin apps = Ok (f', o, apps', calls) ->
+  (calls = [] /\ apps' = apps) \/
+  (exists f3 w3 w', keepf f f3 /\ f_state f3 = f_state f /\ w_calls w3 = [] /\ w_apps w3 = apps /\
+     calls = w_calls w' /\ apps' = w_apps w' /\
+     (do_use_token A ops f3 now w3 = Ok (f', w') \/ do_await_data_response A ops f3 now w3 = Ok (f', w'))).
+Proof.
+  unfold poll, poll_traced. intros H.
+  destruct (poll_inner ops f now (tx_busy pin) (mkWorld (rx pin) None apps [] [])) as [[f1 w1]| |] eqn:E; cbn [bind] in H; try discriminate H.
+  injection H as <- _ <- <-.
+  apply poll_inner_cases in E. destruct E as [[[Hc Ha] _]|[f3 [w3 [[Hc3 Ha3] [Kf3 [Hs3 Hd]]]]]].
+  - left. split; [exact Hc|exact Ha].
+  - cbn in Hc3, Ha3.
+    assert (Hq : quiet now f3 w3 f1 w1 -> (w_calls w1 = [] /\ w_apps w1 = apps)) by (intros [[Qc Qa] _]; split; congruence).
+    unfold dispatch in Hd.
+    destruct (f_state f3) as [ | | | |tk fa fcd| |a tk fa| | | ] eqn:Es3; cbn [kind_of poll_dispatch] in Hd; try discriminate Hd.
+    + left. apply Hq. apply do_listen_token_quiet. exact Hd.
+    + left. apply Hq. apply do_active_idle_quiet. exact Hd.
+    + right. exists f3, w3, w1. split; [exact Kf3|].
+      split; [destruct Hs3 as [E|[_ [E|E]]]; [congruence|discriminate E|discriminate E]|]. tauto.
+    + left. apply Hq. apply do_claim_token_quiet. exact Hd.
+    + right. exists f3, w3, w1. split; [exact Kf3|].
+      split; [destruct Hs3 as [E|[_ [E|E]]]; [congruence|discriminate E|discriminate E]|]. tauto.
+    + left. apply Hq. apply squiet_quiet. apply do_pass_token_squiet. exact Hd.
+    + left. apply Hq. apply squiet_quiet. apply do_check_token_pass_squiet. exact Hd.
+    + left. apply Hq. apply squiet_quiet. apply do_await_status_response_squiet. exact Hd.
+Qed.
+
+(* C15_delivered_reply_shape for one poll, from ANY state: whatever a poll hands to receive_reply is a
+   short confirmation, or a response telegram from the addressed station to this station *)
+Lemma poll_reply_shape f now pin (apps : list A) f' o apps' calls i a t :
+  poll ops f now pin apps = Ok (f', o, apps', calls) ->
+  In (CallReceiveReply i a t) calls -> reply_ok (ts f) a t.
+Proof.
+  intros H Hin. apply poll_calls_cases in H.
+  destruct H as [[-> _]|[f3 [w3 [w' [Kf3 [Hs3 [Hc3 [Ha3 [-> [_ [Hd|Hd]]]]]]]]]]]; [contradiction| |].
+  - apply do_use_token_hold_rule in Hd. destruct Hd as [l [hp [Hl [Hf _]]]]. rewrite Hl, Hc3 in Hin. cbn in Hin.
+    rewrite Forall_forall in Hf. destruct (Hf _ Hin) as [j [r C]]. discriminate C.
+  - apply do_await_data_response_split in Hd.
+    destruct Hd as [a' [tk [fa [app [Es [En Hcases]]]]]].
+    assert (Hts : ts f3 = ts f) by (unfold ts; destruct Kf3 as [-> _]; reflexivity).
+    destruct Hcases as [[t' [app' [Hok [_ [Hc _]]]]]|[[[Hw _] _]|[[[Hw _] _]|[app' [f4 [w4 [_ [Hc4 [_ [_ [_ Hdo]]]]]]]]]]].
+    + rewrite Hc, Hc3 in Hin. cbn in Hin. destruct Hin as [Hin|[]]. injection Hin as _ <- <-. rewrite <- Hts. exact Hok.
+    + rewrite Hw, Hc3 in Hin. contradiction.
+    + rewrite Hw, Hc3 in Hin. contradiction.
+    + apply do_use_token_hold_rule in Hdo. destruct Hdo as [l [hp [Hl [Hf _]]]]. rewrite Hl, Hc4, Hc3 in Hin. cbn in Hin.
+      destruct Hin as [Hin|Hin]; [discriminate Hin|].
+      rewrite Forall_forall in Hf. destruct (Hf _ Hin) as [j [r C]]. discriminate C.
+Qed.
+
+(* ------------------------------------------------------------------------------------------ *)
+(* Part D: the named theorems                                                                  *)
+
+(* the monitor accepts every history of a newly created station; with the invariant at the end *)
+Theorem history_accepted p f0 (apps : list A) evs f apps' h :
+  fdl_new p = Ok f0 -> run f0 apps evs = Ok (f, apps', h) ->
+  accepted (length apps) (p_address p) cst_init h /\ Inv (length apps) f (after (length apps) cst_init h).
+Proof.
+  intros Hn Hr. pose proof (Inv_init (length apps) _ _ Hn) as HI.
+  apply (run_accepted _ _ _ _ _ _ _ HI) in Hr. destruct Hr as [Ha [Hi _]].
+  apply fdl_new_spec in Hn. destruct Hn as [_ Hp]. unfold ts in Ha. rewrite Hp in Ha. split; assumption.
+Qed.
+
+(* C15_contract *)
+Theorem contract_from_inv f m (apps : list A) evs f' apps' h i :
+  Inv (length apps) f m -> run f apps evs = Ok (f', apps', h) ->
+  accepts (apre (ts f) i) (apost i) (app_view i m) h.
+Proof.
+  intros HI Hr. apply (run_accepted _ _ _ _ _ _ _ HI) in Hr. destruct Hr as [Ha _].
+  exact (proj1 (accepts_sim _ _ _ _ (app_view i) (fun m x => app_view_sim (length apps) (ts f) i m x) h m Ha)).
+Qed.
+
+Theorem contract_history p f0 (apps : list A) evs f apps' h i :
+  fdl_new p = Ok f0 -> run f0 apps evs = Ok (f, apps', h) ->
+  accepts (apre (p_address p) i) (apost i) (AppIdle, KOffline) h.
+Proof.
+  intros Hn Hr. destruct (history_accepted _ _ _ _ _ _ _ Hn Hr) as [Ha _].
+  exact (proj1 (accepts_sim _ _ _ _ (app_view i) (fun m x => app_view_sim (length apps) (p_address p) i m x) h cst_init Ha)).
+Qed.
+
+(* C15_routing *)
+Theorem routing_history p f0 (apps : list A) evs f apps' h :
+  fdl_new p = Ok f0 -> run f0 apps evs = Ok (f, apps', h) ->
+  forall pre c post i a, calls_of h = pre ++ c :: post -> answers c i a ->
+  exists pre' hp wire, pre = pre' ++ [CallTransmit i hp (Some (wire, Some a))].
+Proof.
+  intros Hn Hr pre c post i a Heq Ha. destruct (history_accepted _ _ _ _ _ _ _ Hn Hr) as [Hacc _].
+  assert (Hro : routed None (calls_of h)) by (eapply accepted_routed; [exact Hacc|intros i0 a0 C; discriminate C]).
+  destruct (routed_spec _ _ Hro pre c post i a Heq Ha) as [hp [wire Hl]].
+  destruct (@exists_last _ pre) as [pre' [x ->]].
+  - intros ->. discriminate Hl.
+  - exists pre', hp, wire. rewrite map_app in Hl. cbn [map] in Hl. rewrite last_last in Hl. injection Hl as ->. reflexivity.
+Qed.
+
+(* C15_delivered_reply_shape over histories *)
+Theorem reply_shape_history p f0 (apps : list A) evs f apps' h i a t :
+  fdl_new p = Ok f0 -> run f0 apps evs = Ok (f, apps', h) ->
+  In (CallReceiveReply i a t) (calls_of h) -> reply_ok (p_address p) a t.
+Proof.
+  intros Hn Hr Hin. destruct (history_accepted _ _ _ _ _ _ _ Hn Hr) as [Hacc _].
+  assert (Hin' : In (HCall (CallReceiveReply i a t)) h).
+  { clear - Hin. induction h as [|x h IH]; [contradiction|]. cbn in Hin. apply in_app_or in Hin. destruct Hin as [Hin|Hin].
+    - destruct x; cbn in Hin; try contradiction. destruct Hin as [->|[]]. left. reflexivity.
+    - right. exact (IH Hin). }
+  destruct (accepts_in _ _ _ _ _ Hacc Hin') as [m' Hp]. cbn in Hp. tauto.
+Qed.
+
+(* C15_round_robin *)
+Theorem round_robin_history p f0 (apps : list A) evs f apps' h :
+  fdl_new p = Ok f0 -> run f0 apps evs = Ok (f, apps', h) ->
+  accepts (rpre (length apps)) (rpost (length apps)) (mkRr KOffline 0 0) h /\
+  r_turn (posts (rpost (length apps)) (mkRr KOffline 0 0) h) = f_next_app f.
+Proof.
+  intros Hn Hr. destruct (history_accepted _ _ _ _ _ _ _ Hn Hr) as [Ha [_ [Ht _]]].
+  destruct (accepts_sim _ _ _ _ rr_view (fun m x => rr_view_sim (length apps) (p_address p) m x) h cst_init Ha) as [H1 H2].
+  split; [exact H1|]. change (mkRr KOffline 0 0) with (rr_view cst_init). rewrite <- H2. exact Ht.
+Qed.
+
+(* C15_zero_apps: history part *)
+Theorem zero_apps_history p f0 evs f apps' h :
+  fdl_new p = Ok f0 -> run f0 [] evs = Ok (f, apps', h) ->
+  calls_of h = [] /\ apps' = [] /\ kind_of (f_state f) <> KAwaitDataResponse.
+Proof.
+  intros Hn Hr. pose proof (Inv_init 0 _ _ Hn) as HI.
+  apply (run_accepted evs f0 (@nil A) cst_init f apps' h HI) in Hr. cbn [length] in Hr. destruct Hr as [Ha [[Hk [_ Hi]] [Hl _]]].
+  destruct (accepted_zero_apps _ _ _ Ha eq_refl) as [Hc Ho].
+  split; [exact Hc|]. split; [destruct apps'; [reflexivity|discriminate Hl]|].
+  intros C. unfold inv_st, after in Hi. destruct (f_state f) as [ | | | | | |a tk fa| | | ]; try discriminate C.
+  destruct Hi as [Hi _]. rewrite Ho in Hi. discriminate Hi.
 Qed.
 
 End Apps.
